@@ -91,7 +91,8 @@ class CodeGenModel:
                                                       'EXPR[%s->%s]' % (self.X.show(e), rn)))
             return None
         if kind == 'method' and name in ('genStmt',) and self.opaque:
-            self.cb.fields['instrs'].items.append(Obj('STMT', {}, 'STMT'))
+            st = I.expr(args[0], env)
+            self.cb.fields['instrs'].items.append(Obj('STMT', {'stmt': st}, 'STMT[%s]' % getattr(st, 'name', '?')))
             return None
         if kind == 'method' and name == 'containsCall':
             e = I.expr(args[0], env)
@@ -470,6 +471,195 @@ def rule_frames(rep, idx):
 
 
 # --------------------------------------------------------------------------------------------------
+# R11/R12: the generated templates compute the operator / execute the right branch (template executor over the ordering domain)
+# --------------------------------------------------------------------------------------------------
+
+class TemplateFault(Exception):
+    pass
+
+
+def exec_template(M, env, cond_script=None, max_steps=200):
+    """Execute a generated template concretely: EXPR[e->R] sets R to the X meaning of e under env (induction hypothesis: code for
+    a sub-expression leaves its value in the requested register); returns (areg, list of executed STMT placeholders)."""
+    seq = M.instrs()
+    labels = {}
+    for i, (tk, d) in enumerate(seq):
+        if tk == 'IDENTIFIER' or d.cls == 'hexasm::Label':
+            labels[repr(d.fields.get('label'))] = i
+    regs = {'A': None, 'B': None}
+    mem = {}
+    executed = []
+    script = list(cond_script or [])
+    pc = 0
+    steps = 0
+    from ..xmodel import wrap32
+    while pc < len(seq):
+        steps += 1
+        if steps > max_steps:
+            raise TemplateFault('template does not terminate')
+        tk, d = seq[pc]
+        pc += 1
+        if tk == 'EXPR':
+            e = d.fields['expr']
+            if script and d.fields.get('is_condition'):
+                v = script.pop(0)
+            else:
+                v = M.X.meaning(e, env)
+            regs[d.fields['reg']] = v
+        elif tk == 'STMT':
+            executed.append(d.fields.get('stmt'))
+        elif tk in ('IDENTIFIER',) or d.cls == 'hexasm::Label':
+            continue
+        elif tk in ('LDAC', 'LDBC') and d.cls == 'hexasm::InstrImm':
+            regs['A' if tk == 'LDAC' else 'B'] = wrap32(d.fields['immValue'].lo)
+        elif tk in ('LDAM', 'LDBM') and d.cls == 'hexasm::InstrImm' and d.fields['immValue'].concrete() and d.fields['immValue'].lo == 1:
+            regs['A' if tk == 'LDAM' else 'B'] = 'SP'
+        elif tk == 'STAI_FB':
+            if regs['B'] != 'SP':
+                raise TemplateFault('STAI_FB without the stack pointer in breg')
+            mem[repr(d.fields['offset'].aff)] = regs['A']
+        elif tk in ('LDAI_FB', 'LDBI_FB'):
+            r = 'A' if tk == 'LDAI_FB' else 'B'
+            if regs[r] != 'SP':
+                raise TemplateFault('%s without the stack pointer in its base register' % tk)
+            k = repr(d.fields['offset'].aff)
+            if k not in mem:
+                raise TemplateFault('%s reads a frame slot that was not written' % tk)
+            regs[r] = mem[k]
+        elif tk == 'OPR':
+            o = M.ratok.get(d.fields['opcode'].lo)
+            if not isinstance(regs['A'], int) or not isinstance(regs['B'], int):
+                raise TemplateFault('%s on a register that holds no value (areg=%r breg=%r)' % (o, regs['A'], regs['B']))
+            if o == 'ADD':
+                regs['A'] = wrap32(regs['A'] + regs['B'])
+            elif o == 'SUB':
+                regs['A'] = wrap32(regs['A'] - regs['B'])
+            else:
+                raise TemplateFault('unexpected OPR %s in an expression template' % o)
+        elif tk in ('BR', 'BRZ', 'BRN') and d.cls == 'hexasm::InstrLabel':
+            if tk != 'BR' and not isinstance(regs['A'], int):
+                raise TemplateFault('%s on an areg that holds no value' % tk)
+            take = tk == 'BR' or (tk == 'BRZ' and regs['A'] == 0) or (tk == 'BRN' and regs['A'] < 0)
+            if take:
+                tgt = repr(d.fields.get('label'))
+                if tgt not in labels:
+                    raise TemplateFault('branch to a label outside the template: %s' % tgt)
+                pc = labels[tgt]
+        else:
+            raise TemplateFault('unexpected instruction %s in a template' % tk)
+    return regs['A'], executed
+
+
+def rule_templates(rep, idx):
+    rep.rule('R11', 'operator templates: for every binary operator (after OptimiseExpr) and ~, and every operand-kind pair, executing the '
+             'generated instruction template -- sub-expression code being an opaque step that delivers the X value of its sub-expression in '
+             'the requested register -- leaves in areg exactly the X meaning of the expression, for every ordering / zero-test combination '
+             'of the variables', floor=40)
+    import itertools as it
+    from .c07 import D, DB, tree_vars, clone
+    where = 'xcmp.hpp xcmp::CodeBuffer::ExprCodeGen::visitPost(BinaryOpExpr&)'
+    for op in BINOPS:
+        for lk, rk in (('var', 'var'), ('var', 'op'), ('op', 'var'), ('op', 'op'), ('subscript', 'var')):
+            if 'subscript' in (lk, rk):
+                continue
+            key = '%s:%s,%s' % (op, lk, rk)
+            M0 = CodeGenModel(idx, 'A')
+            kinds = dict(operand_kinds(M0))
+            orig = M0.X.binop(op, kinds[lk]('a'), kinds[rk]('b'))
+            try:
+                M, node, chain, thrown = gen_binary(idx, op, lk, rk)
+            except NeedSplit as e:
+                rep.undecided('R11', key, 'not uniform: %s' % e, where)
+                continue
+            if thrown:
+                rep.add('R11', key, False, where, 'code generation fails: %s' % thrown)
+                continue
+            vs = sorted(tree_vars(M0.X, orig, set()))
+            logical = op in ('AND', 'OR')
+            bad = None
+            n = 0
+            for vals in it.product(*[(DB if (logical and lk == 'var' and rk == 'var') else D) for _ in vs]):
+                env = dict(zip(vs, vals))
+                want = M0.X.meaning(orig, env)
+                try:
+                    got, _ = exec_template(M, env)
+                except TemplateFault as e:
+                    bad = 'for %s: %s' % (env, e)
+                    break
+                for u in reversed(chain):
+                    got = xmodel.x_unop('NOT', got)
+                n += 1
+                if got != want:
+                    bad = 'for %s the template leaves %r in areg, (%s) means %d' % (env, got, M0.X.show(orig), want)
+                    break
+            rep.add('R11', key, bad is None, where, bad or '%d assignments agree; template %s' % (n, [t for t, _ in M.instrs()]))
+    # unary not
+    M = CodeGenModel(idx, 'A')
+    M.symbol('a', 'VAR', 'f')
+    node = M.X.unop('NOT', M.X.var('a'))
+    M.X.visit_post(M.expr_visitor('A'), node)
+    bad = None
+    for v in D:
+        try:
+            got, _ = exec_template(M, {'a': v})
+        except TemplateFault as e:
+            bad = str(e)
+            break
+        if got != xmodel.x_unop('NOT', v):
+            bad = 'for a=%d the template leaves %r, ~a means %d' % (v, got, xmodel.x_unop('NOT', v))
+            break
+    rep.add('R11', 'NOT:var', bad is None, 'xcmp.hpp xcmp::CodeBuffer::ExprCodeGen::visitPost(UnaryOpExpr&)', bad or 'template %s' % [t for t, _ in M.instrs()])
+    # statements
+    rep.rule('R12', 'statement templates: `if` executes exactly the then-part when the condition is non-zero and exactly the else-part when '
+             'it is zero (for all four skip/non-skip shapes); `while` evaluates the condition before every iteration and executes the body '
+             'exactly while it is non-zero', floor=8)
+    where = 'xcmp.hpp xcmp::CodeBuffer::StmtCodeGen'
+    for tk_, ek_ in it.product(('stmt', 'skip'), repeat=2):
+        M = CodeGenModel(idx, 'A')
+        M.symbol('c', 'VAR', 'f')
+        mk = lambda k, nm: M.I.construct('xcmp::SkipStatement', [None]) if k == 'skip' else M.I.construct('xcmp::StopStatement', [None], name=nm)
+        th, el = mk(tk_, 'THEN'), mk(ek_, 'ELSE')
+        st = M.I.construct('xcmp::IfStatement', [None, M.X.var('c'), th, el])
+        try:
+            M.X.visit_post(M.stmt_visitor(), st)
+        except (NeedSplit, Thrown) as e:
+            rep.add('R12', 'if:%s/%s' % (tk_, ek_), False, where, 'fails: %s' % e)
+            continue
+        bad = None
+        for v in D:
+            try:
+                _, ex = exec_template(M, {'c': v})
+            except TemplateFault as e:
+                bad = str(e)
+                break
+            want = [th] if (v != 0 and tk_ == 'stmt') else [el] if (v == 0 and ek_ == 'stmt') else []
+            if [id(x) for x in ex] != [id(x) for x in want]:
+                bad = 'for condition value %d the template executes %s, expected %s' % (v, [x.name for x in ex], [x.name for x in want])
+                break
+        rep.add('R12', 'if:then=%s,else=%s' % (tk_, ek_), bad is None, where + '::visitPost(IfStatement&)', bad or 'template %s' % [t for t, _ in M.instrs()])
+    for script in ([0], [1, 0], [2, -1, 0], [-2, 1, 2, 0]):
+        M = CodeGenModel(idx, 'A')
+        M.symbol('c', 'VAR', 'f')
+        body = M.I.construct('xcmp::StopStatement', [None], name='BODY')
+        st = M.I.construct('xcmp::WhileStatement', [None, M.X.var('c'), body])
+        try:
+            M.X.visit_post(M.stmt_visitor(), st)
+        except (NeedSplit, Thrown) as e:
+            rep.add('R12', 'while:%s' % script, False, where, 'fails: %s' % e)
+            continue
+        for tk, d in M.instrs():
+            if tk == 'EXPR':
+                d.fields['is_condition'] = True
+        try:
+            _, ex = exec_template(M, {'c': 0}, list(script))
+            ok = len(ex) == len(script) - 1
+            detail = 'condition values %s: body executed %d time(s)' % (script, len(ex))
+        except TemplateFault as e:
+            ok, detail = False, str(e)
+        rep.add('R12', 'while:condition-values=%s' % script, ok, where + '::visitPost(WhileStatement&)', detail)
+
+
+# --------------------------------------------------------------------------------------------------
 # R4 label namespace, R6 strings
 # --------------------------------------------------------------------------------------------------
 
@@ -564,6 +754,7 @@ def run(rep, tier):
     rule_labels(rep, idx)
     rule_frames(rep, idx)
     rule_strings(rep, idx)
+    rule_templates(rep, idx)
     # the expression optimiser preserves the X meaning (import of C07's rewrite-identity and fold rules)
     from . import c07
     c07.rule_rewrite(_Rename(rep, {'R2': 'R9'}), idx)
